@@ -2737,6 +2737,21 @@ impl Compiler {
                 name: enum_name_idx,
             });
         } else {
+            // Directly in a namespace body, an exported enum of an earlier block of the same
+            // namespace is a property of the namespace object: merge into it as well
+            let reuse_jumps = if self.namespace_body_depths.last() == Some(&scope_depth) {
+                self.builder.emit(Op::TryGetLocalVar {
+                    dst: enum_obj,
+                    name: enum_name_idx,
+                });
+                let to_create = self.builder.emit_jump_if_nullish(enum_obj);
+                let to_end = self.builder.emit_jump();
+                self.builder.patch_jump(to_create);
+                Some(to_end)
+            } else {
+                None
+            };
+
             self.builder.emit(Op::CreateObject { dst: enum_obj });
 
             // Declare the enum variable FIRST so member initializers can reference prior members
@@ -2746,6 +2761,9 @@ impl Compiler {
                 init: enum_obj,
                 mutable: true, // Enums are mutable like objects
             });
+            if let Some(to_end) = reuse_jumps {
+                self.builder.patch_jump(to_end);
+            }
             self.declared_enums
                 .push((decl.id.name.cheap_clone(), scope_depth));
         }
@@ -2919,6 +2937,7 @@ impl Compiler {
         // properties of the namespace object: exported variables live only there (so that
         // assignments are seen through N.x and by later blocks of the same namespace)
         self.emit_push_namespace_scope(ns_obj);
+        self.namespace_body_depths.push(self.scope_depth);
 
         // Compile the namespace body statements
         for stmt in decl.body.iter() {
@@ -2946,6 +2965,7 @@ impl Compiler {
         }
 
         // Pop the namespace scope
+        self.namespace_body_depths.pop();
         self.emit_pop_scope();
 
         self.builder.free_register(ns_obj);
